@@ -9,6 +9,12 @@ open Jug.Graph
 
 variable (deps : Task → List Task)
 
+/-- `jug graph` labels every node with the same five counters: its copy of the classifier is the classifier -/
+theorem graph_classifier_eq (res : Task → Bool) (lock : Task → LockSt) (t : Task) :
+    classifyGraph deps res lock t = classify deps res lock t := by
+  unfold classifyGraph classify lockClass
+  cases lock t <;> rfl
+
 /-- the five categories are mutually exclusive and exhaustive by construction (`classify` is a function);
     what each one means: -/
 theorem classify_spec (res : Task → Bool) (lock : Task → LockSt) (t : Task) :
